@@ -24,7 +24,7 @@ RULE = ('ha-tie: C01 generators (random, constructed quotient ties, zero-vote/ca
         'upward move of w (one place up, to the top; approve w; raise w\'s score) and every added ballot ranking w first (a bullet vote for all rules; '
         'also longer ballots for the additive rules) must again give [w]. non-trivial = a tie in either result / '
         'a binding cap / previous gains (house, votes), or the move changes some candidate\'s standing (sole-winner); distinct by case hash')
-PARTIAL = ['minimax / Schulze / Bucklin monotonicity: stated (C17_*_full_statement), decided per explored case by the relational checker, not proved (Copeland is proved: C17_copeland)',
+PARTIAL = ['Schulze / Bucklin monotonicity: decided per explored case by the relational checker, not proved (Copeland and minimax are proved: C17_copeland, C17_minimax)',
            'vote monotonicity with zero-vote parties or when the larger run ends in a tie or with caps exhausted: relational checker only',
            'positional rules: C17_positional needs the scorer to be non-increasing at the two places; proved for Dowdall, modified Borda and '
            'fixed top, checked per case for Borda, geometric and sequence-based scorers']
